@@ -35,11 +35,13 @@ enum Kind : int {
   kPrepRead,       // PrepareRead; read; VerifyVersion; release
   kTwoLockAssign,  // manipulator only: X(A); X(B); gA = move(gB)   (C07 move-assign over an owning guard)
   kEmptyGuards,    // conversions / destruction of default-constructed and moved-from guards
+  kSamePairS,      // S(A); S(A); g1 = move(g2): move-assign over an owning guard of the SAME lock (only in programs whose other threads
+                   // request nothing but S on that lock, so that the two shared grants of one thread can never wait for each other)
   kKinds
 };
 const char *kKindName[] = {"S", "SIX", "X", "SIX->X", "X->SIX", "X->SIX->X", "SIX->X->SIX", "Opt{read;Verify}", "Opt{read;TryLockS}",
                            "Opt{read;TryLockSIX}", "Opt{read;TryLockX}", "PrepareRead{read;Verify}", "X(A);X(B);gA=move(gB)",
-                           "empty-guard-ops"};
+                           "empty-guard-ops", "S(A);S(A);g1=move(g2)"};
 // Op fields: a = extra yields inside the body (0..3) / retries for optimistic ops
 //            b = guard manipulation bits (below)
 //            c = SetVersion request for the (last) X part: 0 default, >0 fresh advance, <0 republish code
@@ -782,6 +784,45 @@ struct Runner {
     check_version_quiescent(B0, "release X");
   }
 
+  // two shared grants of one thread on one lock; g1 = move(g2) releases exactly one of them, g2 owns nothing afterwards and the
+  // lock is free once g1 is gone (a leaked grant blocks the final LockX of the run).  The ghost registry keeps one S entry for both.
+  void sec_same_pair_s(LS &L, const Op &op)
+  {
+    {
+      L.outstanding++;
+      CallInfo c1 = pre_call(L, "LockS", kS);
+      SG g1 = L.lock->LockS();
+      granted(L, c1, kS, fMoved, "LockS", true);
+      expect_bool(g1, true, "LockS-result");
+      read_payload_locked(L, 0, kS, false);
+      L.outstanding++;
+      if constexpr (A::kMcs) dsim::set_alloc_tag(kTagMcs);
+      dsim::op_begin("LockS (second grant of this thread)", L.idx);
+      SG g2 = L.lock->LockS();
+      post_call(true);
+      expect_bool(g2, true, "LockS-result");
+      dsim::probe(pTwoGrants);
+      check_node_bound("second S granted");
+      read_payload_locked(L, static_cast<int>(op.a), kS, false);
+      if constexpr (A::kMcs) dsim::set_alloc_tag(kTagMcs);
+      dsim::op_begin("release S by move-assign (same lock)", L.idx);
+      g1 = std::move(g2);
+      post_call();
+      L.outstanding--;
+      expect_bool(g1, true, "move-assigned-over-owning-target(same lock)");
+      expect_bool(g2, false, "move-assigned-source(same lock)");
+      if (op.b & kMoveCtor) {
+        SG g3{std::move(g2)};  // moved-from source: owns nothing, destroying it has no effect
+        expect_bool(g3, false, "move-constructed-from-moved-from");
+      }
+      read_payload_locked(L, 0, kS, false);
+      check_version_quiescent(L, "move-assign over owning guard (same lock)");
+      sx_pre_release(L, kS, "release S");
+    }
+    sx_post_release(L);
+    check_version_quiescent(L, "release S");
+  }
+
   // ---------------------------------------------------------------------------------------------
   // optimistic operations (family 1 only)
   // ---------------------------------------------------------------------------------------------
@@ -1114,6 +1155,7 @@ struct Runner {
       case kPrepRead: prep_section(L, op); break;
       case kTwoLockAssign: sec_two_lock_assign(op); break;
       case kEmptyGuards: sec_empty(L, op); break;
+      case kSamePairS: sec_same_pair_s(L, op); break;
       default: break;
     }
     dsim::probe(pSectionsDone);
@@ -1282,6 +1324,7 @@ void generate(Program &prog, dsim::Config &cfg, dsim::Rng &pr, dsim::Rng &cr, in
   int min_thr = 2, max_thr = 4, max_ops = 5, manip_percent = 15;
   bool two_locks = pr.chance(1, 3);
   bool manipulator = false;
+  bool pair_mode = false;  // thread 0 also holds two S grants of lock 0 at a time; every other thread requests only S on lock 0
   switch (profile) {
     case kHandoff:
       set({{kSecS, 5}, {kSecSIX, 3}, {kSecX, 6}, {kSecSIXUp, 2}, {kSecXDown, 2}, {kSecXDownUp, 1}, {kSecSIXUpDown, 1}});
@@ -1301,6 +1344,7 @@ void generate(Program &prog, dsim::Config &cfg, dsim::Rng &pr, dsim::Rng &cr, in
       if (opt) set({{kOptTryS, 1}, {kOptTrySIX, 1}, {kOptTryX, 2}, {kPrepRead, 3}});
       manip_percent = 75;
       manipulator = pr.chance(1, 2);
+      pair_mode = !manipulator && pr.chance(1, 2);
       if (manipulator) two_locks = true;
       min_thr = 1;
       max_thr = 3;
@@ -1384,9 +1428,16 @@ void generate(Program &prog, dsim::Config &cfg, dsim::Rng &pr, dsim::Rng &cr, in
         x -= W.w[k];
       }
       if (is_manip && pr.chance(1, 2)) o.kind = kTwoLockAssign;
+      const bool pair_op = pair_mode && t == 0 && pr.chance(1, 2);
       // threads of a program with a manipulator stay on one lock for their whole life (DESIGN section 4)
       o.obj = (manipulator && !is_manip) ? home : static_cast<int>(pr.below(static_cast<uint64_t>(nlocks)));
       o.a = static_cast<int64_t>(pr.below(3));
+      if (pair_op) {
+        o.kind = kSamePairS;
+        o.obj = 0;
+      } else if (pair_mode && t != 0 && o.obj == 0) {
+        o.kind = kSecS;
+      }
       if (profile == kFifo && t == 0) o.a = 3;
       if (profile == kPrepare && (o.kind == kSecX || o.kind == kSecXDown)) o.a = 2 + static_cast<int64_t>(pr.below(2));
       o.b = 0;
